@@ -98,6 +98,8 @@ def plan(tier, seed):
         to_tag, to_doc, to_tok = 900, 900, 900
     # a valueless attribute followed by an attribute whose *name* is symbolic (names are not dict keys here)
     tag_jobs += [['<x b ', 0, '="v">'], ['<x b ', 0, 1, '="v">'], ['<x b', 0, 1, '=v c>'], ['<x ', 0, ' ', 1, '=v>']]
+    fam_cache = dict(name='verbatim_through_shared_module_cache', module=H, fn='cached_pair', jobs=[{}], timeout=900, vacuity=1,
+                     mutants=[{'name': 'digest_folds_line_endings', 'cfg': {}}])
     fams = [
         dict(name='iter_xml_tiles', module=H, fn='tok_tiles', jobs=[{'shape': s} for s in tok],
              timeout=to_tok, vacuity=1,
@@ -139,7 +141,7 @@ def plan(tier, seed):
                 'length <= %d over all 1,114,112 code points. tag dissection / front end + emitters: %d + %d '
                 'enumerated shapes (tag/document skeletons with %s symbolic code point(s) at the gaps), all '
                 'code points per symbolic position; attribute and element *names* are concrete in the '
-                'front-end family (they become dict keys). newline chain: <= %d symbolic characters. '
+                'front-end family (they become dict keys). newline chain: <= %d symbolic characters; every sequence of 3 statement-free documents from a pool of 6 (XML documents differing only in their line endings, HTML documents) compiled through one on-disk module cache renders each as written. '
                 'Outside: longer symbolic stretches, whole-pipeline compile()+render of a symbolic document, '
                 'element nesting beyond the skeletons.' % (
                     3 if quick else 5, len(tag_jobs), len(doc_jobs), '1' if quick else '1-2',
@@ -153,7 +155,7 @@ def plan(tier, seed):
             'a rejection (TemplateError, undefined namespace prefix, undissectable tag token) is not a C03 '
             'violation: the statement is conditional on the document compiling',
         ],
-        families=fams,
+        families=fams + [fam_cache],
         extra=z_queries,
     )
 
